@@ -453,8 +453,12 @@ def _coverage(repo, rep):
         t_.count("%s") == 2 and "." in t_
         for t_, a_, n_ in L.fmt_sites(n.value))]
     addr = [n for n in fallbacks if any(
-        isinstance(c_, ast.Call) and src(c_.func) in ("repr", "id")
-        for c_ in ast.walk(n.value))]
+        isinstance(c_, ast.Call) and src(c_.func) == "id"
+        for c_ in ast.walk(n.value)) or (
+        any(isinstance(c_, ast.Call) and src(c_.func) == "repr"
+            for c_ in ast.walk(n.value)) and not any(
+            isinstance(t_, ast.expr) and "valueisNone" in src(t_).replace(
+                " ", "") for t_, v_ in L.guards_of(n, sn.node)))]
     rep.check(bool(fallbacks) and not addr, "R15.1", sn.qualname, "the "
               "fallback name of a value without a stable name is not built "
               "on its memory address (repr() / id(): reused by a later "
@@ -466,6 +470,45 @@ def _coverage(repo, rep):
     ident = [n for n in fallbacks if any(
         isinstance(c_, ast.Call) and src(c_.func) == "id" and c_.args
         for c_ in ast.walk(n.value))]
+    # (plain constants -- None, str, bytes, numbers -- are their own name:
+    # a return of repr(value) guarded by exactly that test needs no identity,
+    # and must not have one: the address of None differs between processes,
+    # the default configuration would never hit a stored module)
+    CONST_TYPES = {"str", "bytes", "int", "float", "bool"}
+    consts = []
+    for n in fallbacks:
+        if n in ident:
+            continue
+        gs = [t_ for t_, v_ in L.guards_of(n, sn.node)
+              if isinstance(t_, ast.expr) and v_]
+        okc_ = False
+        for t_ in gs:
+            parts = t_.values if isinstance(t_, ast.BoolOp) and isinstance(
+                t_.op, ast.Or) else [t_]
+            okp = True
+            for p_ in parts:
+                tp = src(p_).replace(" ", "")
+                if tp == "valueisNone":
+                    continue
+                if isinstance(p_, ast.Call) and src(p_.func) == \
+                        "isinstance" and src(p_.args[0]) == "value":
+                    names_ = {src(e) for e in (
+                        p_.args[1].elts if isinstance(
+                            p_.args[1], ast.Tuple) else [p_.args[1]])}
+                    if names_ <= CONST_TYPES:
+                        continue
+                okp = False
+            okc_ = okc_ or okp
+        if okc_:
+            consts.append(n)
+    rep.check(len(consts) >= 1 and any(
+        "valueisNone" in src(t_).replace(" ", "")
+        for n in consts for t_, v_ in L.guards_of(n, sn.node)
+        if isinstance(t_, ast.expr)), "R15.1", sn.qualname, "None and the "
+        "other plain constants are named by their repr alone: the key of a "
+        "default configuration is the same in every process",
+        construct="stable-name-constants", where=L.where(sn))
+    fallbacks = [n for n in fallbacks if n not in consts]
     rep.check(bool(fallbacks) and len(ident) == len(fallbacks), "R15.1",
               sn.qualname, "the fallback name of a value without a stable "
               "name carries the object's identity (two classes made by one "
